@@ -54,6 +54,8 @@ type handler struct {
 	thirdExp  [][]byte
 	inTraffic chan struct{}
 	parkUDP   bool // the next datagram callback parks the loop (udp burst step)
+	pending   []*pendingAcb
+	lastPend  *pendingAcb
 	release   chan struct{}
 }
 
@@ -849,22 +851,34 @@ func (h *handler) doCall(ci *connInfo, call string, n int, data []byte, cb bool)
 		}
 	case "asyncwrite":
 		h.op(ci, h.hl(ci, "asyncwrite", tr.X(data), tr.B(cb)))
-		err := c.AsyncWrite(data, h.acb("write", ci, cb, data))
+		f := h.acb("write", ci, cb, data)
+		pe := h.takePend(cb)
+		err := c.AsyncWrite(data, f)
+		h.refusedIf(err, pe)
 		h.obs(ci, tr.L("hr", tr.I(ci.mcid), "asyncwrite", errSym(err)))
 	case "asyncwritev":
 		segs := splitSegs(data, n)
 		h.op(ci, h.hl(ci, append([]string{"asyncwritev", tr.B(cb)}, segArgs(segs)...)...))
-		err := c.AsyncWritev(segs, h.acb("writev", ci, cb, data))
+		f := h.acb("writev", ci, cb, data)
+		pe := h.takePend(cb)
+		err := c.AsyncWritev(segs, f)
+		h.refusedIf(err, pe)
 		h.obs(ci, tr.L("hr", tr.I(ci.mcid), "asyncwritev", errSym(err)))
 	case "wake":
 		h.op(ci, h.hl(ci, "wake", tr.B(cb)))
-		err := c.Wake(h.acb("wake", ci, cb, nil))
+		f := h.acb("wake", ci, cb, nil)
+		pe := h.takePend(cb)
+		err := c.Wake(f)
+		h.refusedIf(err, pe)
 		h.obs(ci, tr.L("hr", tr.I(ci.mcid), "wake", errSym(err)))
 	case "close":
 		h.op(ci, h.hl(ci, "close", tr.B(cb)))
 		var err error
 		if cb {
-			err = c.CloseWithCallback(h.acb("close", ci, true, nil))
+			f := h.acb("close", ci, true, nil)
+			pe := h.takePend(true)
+			err = c.CloseWithCallback(f)
+			h.refusedIf(err, pe)
 		} else {
 			err = c.Close()
 		}
@@ -891,6 +905,11 @@ func (h *handler) acb(kind string, ci *connInfo, want bool, data []byte) gnet.As
 		return nil
 	}
 	fired := false
+	pend := &pendingAcb{kind: kind, cid: ci.cid}
+	h.mu.Lock()
+	h.pending = append(h.pending, pend)
+	h.lastPend = pend
+	h.mu.Unlock()
 	if (kind == "write" || kind == "writev") && data != nil && !ci.udp && h.cfg.proto != "udp" {
 		h.mu.Lock()
 		ci.asyncIssued = append(ci.asyncIssued, data)
@@ -901,6 +920,9 @@ func (h *handler) acb(kind string, ci *connInfo, want bool, data []byte) gnet.As
 			h.rec.Fail("async-callback", "twice:"+kind, fmt.Sprintf("cid %d", ci.cid))
 		}
 		fired = true
+		h.mu.Lock()
+		pend.fired = true
+		h.mu.Unlock()
 		es := errSym(err)
 		if err != nil {
 			switch err.Error() {
@@ -933,6 +955,46 @@ func (h *handler) acb(kind string, ci *connInfo, want bool, data []byte) gnet.As
 		}
 		h.obs(ci, tr.L("acb", kind, tr.I(cid), es))
 		return nil
+	}
+}
+
+// pendingAcb: one asynchronous request issued with a callback.  A request that was accepted (the call returned
+// nil) while the engine keeps running is carried out, and its callback invoked, exactly once (C03/C04)
+type pendingAcb struct {
+	kind    string
+	cid     int
+	fired   bool
+	refused bool
+}
+
+// refusedIf marks the request issued last on this goroutine as not accepted when its call returned an error
+func (h *handler) refusedIf(err error, p *pendingAcb) {
+	if err != nil && p != nil {
+		h.mu.Lock()
+		p.refused = true
+		h.mu.Unlock()
+	}
+}
+
+// takePend returns the entry created by the acb call just made on this goroutine (nil when no callback was asked)
+func (h *handler) takePend(want bool) *pendingAcb {
+	if !want {
+		return nil
+	}
+	h.mu.Lock()
+	defer h.mu.Unlock()
+	return h.lastPend
+}
+
+// checkPending: with the loop idle and no shutdown under way, every accepted request has had its callback
+func (h *handler) checkPending() {
+	h.mu.Lock()
+	defer h.mu.Unlock()
+	for _, p := range h.pending {
+		if !p.fired && !p.refused {
+			h.rec.Fail("async-callback", "never:"+p.kind, fmt.Sprintf("cid %d: the request was accepted and the loop is idle again, its callback has not run", p.cid))
+			p.refused = true
+		}
 	}
 }
 
